@@ -1245,6 +1245,8 @@ func buildMessageFieldSchema(pkg *Package, context fieldContext, src protoreflec
 			return nil, err
 		}
 
+	} else if _, isEnum := ref.To.(*EnumSchema); isEnum {
+		return nil, fmt.Errorf("schema name %s is used by an enum and by a message or oneof", ref.FullName())
 	}
 	if isOneofWrapper {
 		return &OneofField{
